@@ -96,9 +96,11 @@ def codepointsFromClassPositive : ClassType → CPS.IvList
   | .words => ccWordChars
   | .spaces => ccLineTerminator.foldl CPS.add ccWhitespace
 
-/-- `codepoints_from_class`. -/
-def codepointsFromClass (ct : ClassType) (positive : Bool) : CPS.IvList :=
+/-- `codepoints_from_class`: with `icase` the positive set is closed under case equivalence
+before it is (optionally) inverted. -/
+def codepointsFromClass (ct : ClassType) (positive icase : Bool) : CPS.IvList :=
   let cps := codepointsFromClassPositive ct
+  let cps := if icase then Fold.addIcaseCodePoints cps else cps
   if positive then cps else CPS.inverted cps
 
 /-! ## Case closure
